@@ -3,7 +3,7 @@
    control flow of the drivers as it is in the code.  No memory-safety / no-signal theorem: that part of the
    property is observed by the sanitizer sweep of checks/C03.py. *)
 Require Import Arith Bool List Lia String.
-Require Import MPSV.Total.SkelDefs MPSV.Total.SkelProofs.
+Require Import MPSV.Total.SkelDefs MPSV.Total.SkelProofs MPSV.Total.Accept MPSV.Total.AcceptProofs.
 
 (* (1) Classic driver (mps_standard_mpsolve with mps_fsolve / mps_dsolve / mps_msolve and mps_improve): for every oracle
    the driver returns within Bound = (D + 2) * (max_pack * (max_it + 2) + 4) + L + 6 control steps, where
@@ -34,7 +34,7 @@ Proof. vm_compute. reflexivity. Qed.
 Definition caps_small : caps := {| max_pack := 3; max_it := 2; mpwp_max := 1000 |}.
 Definition stubborn : ans :=
   {| o_err := false; o_whichd := false; o_more := true; o_pk := PkCycle; o_dafter := true; o_stop := false; o_pre := false;
-     o_incl := true; o_allapprox := false; o_best := false; o_regen1 := true; o_regen := true; o_stop2 := false |}.
+     o_incl := true; o_allapprox := false; o_best := false; o_regen1 := true; o_regen := true; o_stop2 := false; o_round := 3 |}.
 Example C03_stubborn_run_uses_the_caps :
   steps ust (ustep caps_small cfg_ex) uterminal (Bound caps_small cfg_ex) (fun _ => stubborn) 0 uinit = 95
   /\ Bound caps_small cfg_ex = 106
@@ -105,4 +105,33 @@ Print Assumptions C03_ends_in_result_or_error.
 Example C03_terminal_with_roots :
   pc (run ust (ustep caps_default {| cgoal := Isolate; resume := false; in_prec := 0; mpwp0 := 64; wp_min := 53; avoid_mp := false |})
         uterminal 40 adversary 0 uinit) = U_return.
+Proof. vm_compute. reflexivity. Qed.
+
+(* (6) Tie.  The check feeds the event trace of real solves (vf_solve -T) to the extracted [check_u] / [check_s].
+   An accepted trace is, event for event, the trace of a run of the skeleton ([utrace] / [strace] iterate the same
+   [ustep] / [sstep] as above over a list of oracle answers) that ends in a terminal state with the same error flag as
+   the real solve, and for the classic driver takes no more steps than [trace_bound] = [Bound] (plus the improve
+   iterations seen in the trace when improve has no cap: exact input and goal approximate). *)
+Theorem C03_trace_accept_sound_classic :
+  forall c g ferr finc evs n l b, check_u c g ferr finc evs = (true, n, l, b) ->
+  exists answers : list ans, List.length answers = n /\ n <= trace_bound c g evs /\
+    fst (utrace answers c g uinit) = evs /\ uterminal (snd (utrace answers c g uinit)) = true /\
+    is_some (err (snd (utrace answers c g uinit))) = ferr.
+Proof. exact check_u_sound. Qed.
+Print Assumptions C03_trace_accept_sound_classic.
+
+Theorem C03_trace_accept_sound_secular :
+  forall c g ferr evs n l, check_s c g ferr evs = (true, n, l) ->
+  exists answers : list ans, List.length answers = n /\
+    fst (strace answers c g sinit) = evs /\ sterminal (snd (strace answers c g sinit)) = true /\
+    is_some (serr (snd (strace answers c g sinit))) = ferr.
+Proof. exact check_s_sound. Qed.
+Print Assumptions C03_trace_accept_sound_secular.
+
+Example C03_trace_accepted :
+  check_u caps_small cfg_ex false false
+    (EPh SF :: EK :: EK :: EPh SM :: EW 128 :: EK :: EW 256 :: EI 53 :: EI 106 :: nil) = (true, 21, 0, 106).
+Proof. vm_compute. reflexivity. Qed.
+Example C03_trace_rejected_packet_in_wrong_place :
+  fst (fst (fst (check_u caps_small cfg_ex false false (EPh SF :: EPh SM :: EK :: nil)))) = false.
 Proof. vm_compute. reflexivity. Qed.
